@@ -437,6 +437,15 @@ class Evaluator:
         x, y, z = self._arith(a, 3, env, props)
         return rnd(x_add(x.mul(y), z, props), props)
 
+    def op_copysign(self, a, env, props):
+        x, y = self._arith(a, 2, env, props)
+        if y.isnan:
+            raise Unsupported('copysign with a NaN sign')
+        if x.isnan:
+            return rnd(x, props)
+        m = x.abs()
+        return rnd(m.neg() if y.s else m, props)
+
     def op_cast(self, a, env, props):
         x, = self._arith(a, 1, env, props)
         return rnd(x, props)
